@@ -1,10 +1,40 @@
 import LinOp.C15.Model
+import LinOp.C15.Bind
 import LinOp.Generated.C15Tables
+import LinOp.Generated.C15Sigs
 /-! The tables generated from /repo's source, packaged for the model. -/
 namespace LinOp.C15
 
 def genTables : Tables :=
   { first := LinOp.Generated.C15.handledFirst, second := LinOp.Generated.C15.handledSecond,
     classes := LinOp.Generated.C15.classes, sigs := LinOp.Generated.C15.sigs }
+
+/-! ### generated signatures (argument forwarding) -/
+
+def toKind : Nat → PKind
+  | 0 => .pos
+  | 1 => .kwOnly
+  | 2 => .varPos
+  | _ => .varKw
+
+def toSig (l : List (String × Nat × Option String)) : Sig := l.map fun e => ⟨e.1, toKind e.2.1, e.2.2⟩
+
+/-- Full signature (incl. `self`) of the definition of `m` in the body of class `definer`. -/
+def methodSig (definer m : String) : Option Sig :=
+  (LinOp.Generated.C15.methodSigs.find? fun e => e.1 == definer && e.2.1 == m).map fun e => toSig e.2.2
+
+/-- Signature of what `getattr(c, m)` finds. -/
+def handlerSig (c m : String) : Option Sig :=
+  (resolve LinOp.Generated.C15.classes c m).bind fun d => methodSig d m
+
+/-- (number of operands, torch's parameters after the operands). -/
+def torchSig (f : String) : Option (Nat × Sig) :=
+  (LinOp.Generated.C15.torchSigs.find? fun e => e.1 == f).map fun e => (e.2.1, toSig e.2.2)
+
+/-- The base-class handler's parameters after the operands vs torch's: `sigCompat`. -/
+def entryForwardOK (e : String × String) : Bool :=
+  match torchSig e.1, methodSig "LinearOperator" e.2 with
+  | some (n, sT), some sM => Sig.simple (sM.drop n) && Sig.simple sT && sigCompat (sM.drop n) sT
+  | _, _ => false
 
 end LinOp.C15
